@@ -38,6 +38,8 @@ TOKENS = [
     b'RESULT x\n', b'RESULT +2\n', b'RESULT 1_0\n', b'XXXXXXX2\n', b'READY', b'RESULT 2', b'RES', b'\n',
     b'junk', b'RESULT 99999999999999999999\n', b'RESULT 007\n', b'RESULT \n', b'RESULT 2 \n',
     b' RESULT 2\n', b'result 2\n', b'!X', b'\xff\xfe', b'RESULT 2\r\n', b'READY\nREADY\n', b'RESULT 12\n',
+    # ANSI escape sequences (options.strip_ansi must not touch the protocol stream)
+    b'\x1b[31m', b'RESULT 7\n', b'O\x1b[31mK', b'RE\x1b[1mADY\n', b'RESULT 5\n', b'\x1b[',
 ]
 CORE = [b'READY\n', b'RESULT 2\n', b'OK', b'FAIL', b'RESULT 0\n', b'RESULT -1\n', b'X', b'RESULT 2', b'\n']
 STARTS = ['ACK', 'READY', 'BUSY', 'UNKNOWN']
@@ -93,10 +95,23 @@ def _run(chk, wd, proved):
     counts = {}
     envelopes = _Envelopes(drv)
 
+    cur = {'strip': False}       # options.strip_ansi of the next runs
+    log_cases = {}
+
     def add_case(nl, hk, setup, ops, tag):
-        case, trace = drv.run_case(nl, hk, setup, ops, maxdig)
+        strip = cur['strip']
+        case, trace = drv.run_case(nl, hk, setup, ops, maxdig, strip)
         cases.append(case)
-        m = {'family': tag, 'listeners': nl, 'handler': hk, 'setup': _js(setup), 'ops': _js(ops)}
+        m = {'family': tag, 'listeners': nl, 'handler': hk, 'strip_ansi': strip, 'setup': _js(setup), 'ops': _js(ops)}
+        chk.dist('strip_ansi=%s' % strip)
+        for data, logged in drv.run_case.last_logged:
+            if logged is None or not isinstance(logged, bytes):
+                if counts.get('childlog', 0) < 3:
+                    counts['childlog'] = counts.get('childlog', 0) + 1
+                    chk.violation({'kind': 'listener output was not written to the child log exactly once', 'case': m,
+                                   'data': list(data)})
+            elif len(data) <= 40:
+                log_cases[(strip, data, logged)] = m
         meta.append(m)
         for key, outs in trace:
             distinct.add((hash(key), outs))
@@ -120,7 +135,7 @@ def _run(chk, wd, proved):
         return trace
 
     def impl_only(nl, hk, setup, ops):
-        w = drv.World(nl, hk)
+        w = drv.World(nl, hk, cur['strip'])
         for op in setup:
             w.apply(op)
         tr = []
@@ -136,6 +151,7 @@ def _run(chk, wd, proved):
             if fn.endswith('.json'):
                 with open(os.path.join(cdir, fn)) as f:
                     c = json.load(f)
+                cur['strip'] = bool(c.get('strip_ansi', False))
                 add_case(c['listeners'], c['handler'], _unjs(c['setup']), _unjs(c['ops']), 'corpus')
                 chk.dist('corpus')
 
@@ -161,7 +177,12 @@ def _run(chk, wd, proved):
     # hostile: huge lengths around CPython's digit limit, long junk
     hostile = [(b'RESULT ' + b'9' * 30 + b'\n', b'OK'),                (b'RESULT ' + b'1' * 4301 + b'\n', b'READY\n'), (b'RESULT ' + b'0' * 40 + b'2\n', b'OK', b'READY\n'),
                (b'\x00' * 50,), (b'READY\n' * 5,), (b'RESULT 2\nOK' * 3,),
-               (b'RESULT 00\n',), (b'RESULT 000000\n',)]   # inside the signature of C10-zero-length-result
+               (b'RESULT 00\n',), (b'RESULT 000000\n',),
+               # escape sequences inside payloads, across tokens and across chunk boundaries
+               (b'RESULT 7\n', b'O\x1b[31mK', b'READY\n'), (b'RE\x1b[1mADY\n',), (b'READY\n', b'\x1b[0m'),
+               (b'RESULT 2\n', b'\x1b[0mOK'), (b'RESULT 5\n', b'\x1b[31m', b'READY\n'), (b'RES\x1b[mULT 2\nOK',),
+               (b'RESULT 2\x1b[K\n', b'OK'), (b'\x1b[1mREADY\n',), (b'RESULT 6\nO\x1b', b'[1mK', b'READY\n'),
+               (b'RESULT 2\nOK\x1b[0m', b'READY\n'), (b'RESULT 3\n\x1b[', b'H')]   # inside the signature of C10-zero-length-result
     exh_upto = 8 if quick else 12
     for si, toks in enumerate(list(streams) + hostile):
         stream = b''.join(toks)
@@ -170,7 +191,11 @@ def _run(chk, wd, proved):
         for start in STARTS:
             if len(toks) >= 3 and not is_hostile and quick and (si + STARTS.index(start)) % 2:
                 continue
-            for hk in ((0, 1) if b'!X' in toks else (0,)):
+            variants = [(hk, False) for hk in ((0, 1) if b'!X' in toks else (0,))]
+            if b'\x1b' in stream or is_hostile or (si + STARTS.index(start)) % 4 == 0:
+                variants.append((0, True))       # the same bytes with options.strip_ansi = True
+            for hk, strip in variants:
+                cur['strip'] = strip
                 setup = drv.SETUPS[start]
                 # reference: byte-wise delivery (state after every prefix)
                 if len(stream) <= 60:
@@ -191,6 +216,8 @@ def _run(chk, wd, proved):
                 evaluations += 2
                 frs = _fragmentations(len(stream), rng, exh_upto, 3 if quick else 10) if len(stream) <= 60 else \
                     [tuple(sorted(set(rng.randrange(1, len(stream)) for _ in range(3)))) for _ in range(3)]
+                if strip and b'\x1b' not in stream:
+                    frs = frs[:4]       # without escape bytes strip_ansi has nothing to act on: a few cuts suffice
                 coq_pick = rng.randrange(len(frs))
                 for fi, cuts in enumerate(frs):
                     ops = [['feed', 0, c] for c in _cut(stream, cuts)]
@@ -212,7 +239,7 @@ def _run(chk, wd, proved):
                                 break
                             chk.violation({
                                 'kind': 'fragmentation changes the interpretation of a listener byte stream',
-                                'start_state': start, 'handler': hk, 'stream': list(stream), 'cuts': list(cuts),
+                                'start_state': start, 'handler': hk, 'strip_ansi': strip, 'stream': list(stream), 'cuts': list(cuts),
                                 'after_bytes': pos, 'this_fragmentation': [list(key), list(acc)],
                                 'bytewise_delivery': [list(want[0]), list(want[1])]})
                             break
@@ -239,6 +266,7 @@ def _run(chk, wd, proved):
                         vid += 1
                     if rng.random() < 0.3:
                         ops.append(['writable', 0, ['room', rng.choice([1, 30, env.BIG])]])
+                cur['strip'] = rng.random() < 0.5
                 add_case(1, 0, drv.SETUPS[start], ops, 'E')
                 evaluations += 1
                 chk.dist('E:' + mode)
@@ -281,6 +309,7 @@ def _run(chk, wd, proved):
         d = depth if (quick or sname == 'both-ready') else 2
         for seq in itertools.product(base_ops, repeat=d):
             ops = [inst(o) for o in seq]
+            cur['strip'] = bool(len(cases) % 2)
             add_case(2, 0, setup, ops, 'S-exh')
             evaluations += 1
             chk.dist('S-exh:' + sname)
@@ -315,6 +344,7 @@ def _run(chk, wd, proved):
                 ops.append(['finish', i, rng.choice([b'', b'', b'RESULT 2\nOK', b'junk', b'RESULT 2\n']),
                             rng.choice(W), rng.random() < 0.3])
         setup = rng.choice(sorted(s_setups.values(), key=repr))
+        cur['strip'] = rng.random() < 0.5
         add_case(2, rng.choice([0, 0, 1]), setup, ops, 'S-rand')
         evaluations += 1
         for o in ops:
@@ -345,6 +375,18 @@ def _run(chk, wd, proved):
                        'case': spec_meta[i],
                        'explanation': 'start state, stream and the observed final state/effects were judged by '
                                       'Automaton.proto_ref (the specification of c10_refines_automaton), not by the model'})
+
+    # ---------------- what reached the child log: raw bytes, or stripEscapes of them when strip_ansi is set
+    lkeys = sorted(log_cases, key=repr)
+    lterms = ['(%s, %s, %s)' % (vlib.blit(k[0]), bytes_lit(k[1]), bytes_lit(k[2])) for k in lkeys]
+    lbad, lerrs = vlib.coq_compare(['SV.C10.Listener', 'SV.C10.ReadLog'], 'bool * bytes * bytes', 'check_childlog',
+                                   lterms, wd, shard=2000, tag='childlog')
+    for e in lerrs:
+        chk.violation({'kind': 'model evaluation failed (child log)', 'error': e}, nofail=True)
+    for i in lbad[:3]:
+        chk.violation({'kind': 'child log content differs from the model of stripEscapes / handle_read_event',
+                       'strip_ansi': lkeys[i][0], 'data': list(lkeys[i][1]), 'logged': list(lkeys[i][2]),
+                       'case': log_cases[lkeys[i]]}, nofail=True)
 
     if counts.get('lag'):
         chk.known_finding('C10-zero-length-result',
@@ -381,7 +423,7 @@ def _run(chk, wd, proved):
                        'file': 'coq/props/C10.v'}, nofail=not chk.violations)
 
     cov = chk.coverage
-    cov['evaluations'] = len(cases) + frag_runs + len(iterms) + len(spec_cases)
+    cov['evaluations'] = len(cases) + frag_runs + len(iterms) + len(spec_cases) + len(lterms)
     cov['traces_validated_against_impl'] = len(cases)
     cov['distinct_nontrivial'] = len(distinct)
     cov['exhaustive'] = False
@@ -444,7 +486,7 @@ def _first_divergence(m, maxdig, wd):
     import c10_drive as drv
     setup, ops = _unjs(m['setup']), _unjs(m['ops'])
     for k in range(1, len(ops) + 1):
-        case, _ = drv.run_case(m['listeners'], m['handler'], setup, ops[:k], maxdig)
+        case, _ = drv.run_case(m['listeners'], m['handler'], setup, ops[:k], maxdig, m.get('strip_ansi', False))
         b, e = vlib.coq_compare(IMPORTS, CASE_TYPE, 'check_sys', [case], wd, tag='div')
         if b or e:
             return {'prefix_length': k, 'operation': _js([ops[k - 1]])[0], 'coq_case': case[-1500:]}
@@ -474,7 +516,7 @@ def replay(chk, path):
     m = obj.get('case')
     if m and 'ops' in m:
         with vlib.WorkDir('c10r') as wd:
-            case, tr = drv.run_case(m['listeners'], m['handler'], _unjs(m['setup']), _unjs(m['ops']), maxdig)
+            case, tr = drv.run_case(m['listeners'], m['handler'], _unjs(m['setup']), _unjs(m['ops']), maxdig, m.get('strip_ansi', False))
             for (key, outs), op in zip(tr, m['ops']):
                 print(op, '->', outs)
             b, e = vlib.coq_compare(IMPORTS, CASE_TYPE, 'check_sys', [case], wd, tag='replay')
@@ -486,7 +528,7 @@ def replay(chk, path):
         setup = drv.SETUPS[obj['start_state']]
         for cuts in (tuple(obj['cuts']), tuple(range(1, len(stream)))):
             ops = [['feed', 0, c] for c in _cut(stream, cuts)]
-            w = drv.World(1, obj['handler'])
+            w = drv.World(1, obj['handler'], obj.get('strip_ansi', False))
             for op in setup:
                 w.apply(op)
             acc = []
